@@ -21,9 +21,9 @@ import (
 )
 
 func init() {
-	addRound4("C14", "(B1) everything the per-service goroutines run (the goroutines that query the catalog for one service, what they call, and every function that contributes to a command; a function that defers a recover() shields what it calls) is total on registered text: a constant index into a list whose length the input decides - the result of strings.Split/SplitN/Fields and friends or of a regexp submatch, followed through variables, merges, helper results and helper parameters - is taken only where the dominating length tests (len comparisons; for SplitN(.., 2) `len != 1`) show the element exists, and a string is cut at a constant position only where strings.HasPrefix/HasSuffix, an equality with a constant or a length test shows it is long enough; nobody recovers a panic in those goroutines, so one registration with an option written `weight` instead of `weight=1` would terminate fabio and stop the route updates of every service instead of being dropped on its own.", runC14B1, c14round4B1mutants()...)
+	addRound4("C14", "(B1) everything the per-service goroutines run (the goroutines that query the catalog for one service, what they call, and every function that contributes to a command; a function that defers a recover() shields what it calls) is total on registered text: a constant index into a list whose length the input decides - the result of strings.Split/SplitN/Fields and friends or of a regexp submatch, followed through variables, merges, helper results and helper parameters - is taken only where the length tests that hold there (len comparisons; for SplitN(.., 2) `len != 1`; a test that the text contains the separator - strings.Contains / Index / Count) show the element exists, and a string is cut at a constant position only where strings.HasPrefix/HasSuffix/Contains/Index/CutPrefix with a constant, an equality with a constant or a length test shows it is long enough - a test holds where it dominates, where it holds on EVERY edge into a merge (`case a, b, c:`, `a || b`), and where a small predicate of the repository that makes it said yes; nobody recovers a panic in those goroutines, so one registration with an option written `weight` instead of `weight=1` would terminate fabio and stop the route updates of every service instead of being dropped on its own.", runC14B1, c14round4B1mutants()...)
 	addRound4("C14", "(B2) nothing the per-service goroutines run in the generator's own package (same region as B1, recover() shields) ends the process on purpose: no call of panic, log.Fatal*/log.Panic* or os.Exit - a registration the generator does not like (bad redirect syntax, unknown proto) is logged and dropped, it must not take the route updates of all other services with it.", runC14B2, c14round4B2mutants()...)
-	addRound4("C14", "(A1) a route add command that is accepted alone is accepted in company: the generator validates every command on its own (T1: route.NewTable on that single command, i.e. applied to an EMPTY table), while the update loop applies all commands to ONE table; therefore, in the function(s) the table builder calls for a `route add` definition and in the builder's own loop, no error return may be decided by what the table already holds - every branch condition on the way to an error return that reads the table (a value of the table type, anything looked up in or ranged from it) must also hold for the empty table (`t[host] == nil`), or the error must be the verdict of a call that judges the command alone (glob.Compile(path)) and is also reached with the same arguments on a path the empty table takes; otherwise two registrations that are each fine (a tcp and an http target on one prefix) pass validation, nothing is dropped, and every later table build fails: the routes of ALL services are frozen.", runC14A1, c14round4A1mutants()...)
+	addRound4("C14", "(A1) a route add command that is accepted alone is accepted in company: the generator validates every command on its own (T1: route.NewTable on that single command, i.e. applied to an EMPTY table), while the update loop applies all commands to ONE table; therefore, in the function(s) the table builder (route.NewTable and the same-package function it delegates the building to; the body of a range-over-func loop belongs to it) calls for a `route add` definition - under a comparison of the command word with `route add`, through a table keyed by it, through a predicate or dispatcher that makes the comparison, or in the last arm of a chain that excluded the other command words - and in the builder's own loop, no error return may be decided by what the table already holds - every branch condition on the way to an error return that reads the table (a value of the table type, anything looked up in or ranged from it) must also hold for the empty table (`t[host] == nil`), or the error must be the verdict of a call that judges the command alone (glob.Compile(path)) and is also reached with the same arguments on a path the empty table takes; otherwise two registrations that are each fine (a tcp and an http target on one prefix) pass validation, nothing is dropped, and every later table build fails: the routes of ALL services are frozen.", runC14A1, c14round4A1mutants()...)
 }
 
 var c14debug = os.Getenv("C14DEBUG") != ""
@@ -128,6 +128,10 @@ var c14splitFamily = map[string]int64{ // callee -> guaranteed minimum length of
 // With `!=` tests the bound moves past the excluded lengths (SplitN(s, sep, 2) yields 1 or 2 elements; `len(p) != 1`
 // leaves 2). Also understood for strings: strings.HasPrefix/HasSuffix(x, "const") and x == "const".
 func c14lenFromFacts(facts []Fact, x ssa.Value, start int64) int64 {
+	return c14lenFromFactsD(facts, x, start, 0)
+}
+
+func c14lenFromFactsD(facts []Fact, x ssa.Value, start int64, depth int) int64 {
 	lower := start
 	same := func(v ssa.Value) bool {
 		return c14sameValue(v, x) || (accessPath(v) != "" && accessPath(v) == accessPath(x) && v.Type() == x.Type() && c14pathStable(v))
@@ -138,13 +142,79 @@ func c14lenFromFacts(facts []Fact, x ssa.Value, start int64) int64 {
 	}
 	var excluded []int64
 	for _, f := range facts {
-		if call, ok := f.Cond.(*ssa.Call); ok && f.Truth {
-			switch calleeName(&call.Call) {
-			case "strings.HasPrefix", "strings.HasSuffix", "bytes.HasPrefix", "bytes.HasSuffix":
-				if w, isK := constString(call.Call.Args[1]); isK && same(call.Call.Args[0]) && int64(len(w)) > lower {
-					lower = int64(len(w))
+		if phi, isPhi := f.Cond.(*ssa.Phi); isPhi && depth < 3 {
+			// a verdict kept in a boolean (`case a || b:` of a tagless switch, `ok := a || b`): one of the incoming
+			// edges that can carry this truth value was taken - the weakest of what they establish holds
+			first := true
+			var m int64
+			for k, e := range phi.Edges {
+				kb, isK := constBool(e)
+				if isK && kb != f.Truth {
+					continue
 				}
+				fs := c14edgeLocalFacts(phi.Block().Preds[k], phi.Block())
+				if !isK {
+					fs = appendCondFacts(fs, e, f.Truth, 0)
+				}
+				if v := c14lenFromFactsD(fs, x, start, depth+1); first || v < m {
+					m = v
+				}
+				first = false
 			}
+			if !first && m > lower {
+				lower = m
+			}
+			continue
+		}
+		if call, isCall := f.Cond.(*ssa.Call); isCall && depth < 3 {
+			// the verdict of a small predicate of the repository about x (`if hasValue(kv) { .. kv[1] .. }`): what
+			// holds about its parameter wherever it returns this verdict
+			if sc := call.Call.StaticCallee(); sc != nil && isRepoFn(sc) && len(sc.Blocks) > 0 && len(sc.Blocks) <= 12 && sc.Signature.Results().Len() == 1 && len(call.Call.Args) == len(sc.Params) {
+				for k, arg := range call.Call.Args {
+					if !same(arg) {
+						continue
+					}
+					first := true
+					var m int64
+					eachInstr(sc, func(i ssa.Instruction) {
+						r, isRet := i.(*ssa.Return)
+						if !isRet || len(r.Results) != 1 {
+							return
+						}
+						fs := localFactsAt(r.Block())
+						if kb, isK := constBool(r.Results[0]); isK {
+							if kb != f.Truth {
+								return
+							}
+						} else {
+							fs = appendCondFacts(fs, r.Results[0], f.Truth, 0)
+						}
+						if v := c14lenFromFactsD(fs, sc.Params[k], start, depth+1); first || v < m {
+							m = v
+						}
+						first = false
+					})
+					if !first && m > lower {
+						lower = m
+					}
+				}
+				continue
+			}
+		}
+		if s, min, ok := c14memberFact(f); ok {
+			if same(s) && min > lower {
+				lower = min
+			}
+			continue
+		}
+		if s, sub, ok := c14containsFact(f); ok {
+			// the text is known to contain a constant (HasPrefix, HasSuffix, Contains, Index >= 0, CutPrefix ...)
+			if w, isK := constString(sub); isK && same(s) && int64(len(w)) > lower {
+				lower = int64(len(w))
+			}
+			continue
+		}
+		if _, isCall := f.Cond.(*ssa.Call); isCall {
 			continue
 		}
 		x0, op, y0, ok := c14cmp(f)
@@ -209,10 +279,10 @@ func c14lenFromFacts(facts []Fact, x ssa.Value, start int64) int64 {
 	return lower
 }
 
-// c14strLenLB: a lower bound of the length of the string x where facts hold; for a parameter of a helper also what
-// holds at each of its (few, static) call sites about the argument, for a merge what holds on each incoming edge.
-func c14strLenLB(x ssa.Value, facts []Fact, d int) int64 {
-	lb := c14lenFromFacts(facts, x, 0)
+// c14strLenLB: a lower bound of the length of the string x at w; for a parameter of a helper also what holds at each
+// of its (few, static) call sites about the argument, for a merge what holds on each incoming edge.
+func c14strLenLB(x ssa.Value, w c14where, d int) int64 {
+	lb := c14lenAt(w, x, 0)
 	if k, ok := constString(x); ok {
 		return int64(len(k))
 	}
@@ -237,12 +307,12 @@ func c14strLenLB(x ssa.Value, facts []Fact, d int) int64 {
 			if idx < 0 || idx >= len(s.Common().Args) || s.Block() == nil {
 				return lb
 			}
-			alts = append(alts, c14strLenLB(s.Common().Args[idx], factsAt(s.Block()), d+1))
+			alts = append(alts, c14strLenLB(s.Common().Args[idx], c14atBlock(s.Block()), d+1))
 		}
 	case *ssa.Phi:
 		for k, e := range y.Edges {
 			if e != x {
-				alts = append(alts, c14strLenLB(e, edgeFacts(y.Block().Preds[k], y.Block()), d+1))
+				alts = append(alts, c14strLenLB(e, c14onEdge(y.Block().Preds[k], y.Block()), d+1))
 			}
 		}
 	default:
@@ -284,9 +354,12 @@ func c14pathStable(v ssa.Value) bool {
 // c14lenLB: a lower bound of len(x) where facts hold, and whether the length of x is decided by input text (x is, or
 // may be, the result of the split family). Followed through merges (per incoming edge), local variables, append,
 // helper results (per return) and helper parameters (per call site).
-func c14lenLB(x ssa.Value, facts []Fact, d int, seen map[ssa.Value]bool) (lb int64, input bool, what string) {
+func c14lenLB(x ssa.Value, w c14where, d int, seen map[ssa.Value]bool) (lb int64, input bool, what string) {
 	base, input, what := c14lenBase(x, d, seen)
-	return c14lenFromFacts(facts, x, base), input, what
+	if call, ok := x.(*ssa.Call); ok && input && base < 2 && c14splitFindsSep(call, w) {
+		base = 2 // the text is known to contain the separator: at least two parts
+	}
+	return c14lenAt(w, x, base), input, what
 }
 
 func c14lenBase(x ssa.Value, d int, seen map[ssa.Value]bool) (lb int64, input bool, what string) {
@@ -296,8 +369,8 @@ func c14lenBase(x ssa.Value, d int, seen map[ssa.Value]bool) (lb int64, input bo
 	seen[x] = true
 	defer delete(seen, x)
 	type alt struct {
-		v     ssa.Value
-		facts []Fact
+		v ssa.Value
+		w c14where
 	}
 	var alts []alt
 	switch y := x.(type) {
@@ -326,7 +399,7 @@ func c14lenBase(x ssa.Value, d int, seen map[ssa.Value]bool) (lb int64, input bo
 			}
 			eachInstr(g, func(i ssa.Instruction) {
 				if r, ok := i.(*ssa.Return); ok && len(r.Results) == 1 {
-					alts = append(alts, alt{r.Results[0], localFactsAt(r.Block())})
+					alts = append(alts, alt{r.Results[0], c14where{localFactsAt(r.Block()), r.Block()}})
 				}
 			})
 		}
@@ -341,7 +414,7 @@ func c14lenBase(x ssa.Value, d int, seen map[ssa.Value]bool) (lb int64, input bo
 			}
 			eachInstr(g, func(i ssa.Instruction) {
 				if r, ok := i.(*ssa.Return); ok && y.Index < len(r.Results) {
-					alts = append(alts, alt{r.Results[y.Index], localFactsAt(r.Block())})
+					alts = append(alts, alt{r.Results[y.Index], c14where{localFactsAt(r.Block()), r.Block()}})
 				}
 			})
 		}
@@ -364,7 +437,7 @@ func c14lenBase(x ssa.Value, d int, seen map[ssa.Value]bool) (lb int64, input bo
 			if e == x {
 				continue
 			}
-			alts = append(alts, alt{e, edgeFacts(y.Block().Preds[k], y.Block())})
+			alts = append(alts, alt{e, c14onEdge(y.Block().Preds[k], y.Block())})
 		}
 	case *ssa.UnOp:
 		if y.Op != token.MUL {
@@ -378,7 +451,7 @@ func c14lenBase(x ssa.Value, d int, seen map[ssa.Value]bool) (lb int64, input bo
 			switch z := r.(type) {
 			case *ssa.Store:
 				if z.Addr == cell {
-					alts = append(alts, alt{z.Val, factsAt(z.Block())})
+					alts = append(alts, alt{z.Val, c14atBlock(z.Block())})
 				}
 			case *ssa.UnOp, *ssa.DebugRef:
 			default:
@@ -401,7 +474,7 @@ func c14lenBase(x ssa.Value, d int, seen map[ssa.Value]bool) (lb int64, input bo
 			if idx < 0 || idx >= len(s.Common().Args) || s.Block() == nil {
 				return 0, false, ""
 			}
-			alts = append(alts, alt{s.Common().Args[idx], factsAt(s.Block())})
+			alts = append(alts, alt{s.Common().Args[idx], c14atBlock(s.Block())})
 		}
 	case *ssa.ChangeType:
 		return c14lenBase(y.X, d+1, seen)
@@ -413,7 +486,7 @@ func c14lenBase(x ssa.Value, d int, seen map[ssa.Value]bool) (lb int64, input bo
 	}
 	first := true
 	for _, a := range alts {
-		l, in, w := c14lenLB(a.v, a.facts, d+1, seen)
+		l, in, w := c14lenLB(a.v, a.w, d+1, seen)
 		if in {
 			input = true
 			if what == "" {
@@ -491,7 +564,7 @@ func c14b1check(c *Ctx, fns []*ssa.Function) {
 			if _, isSlice := x.X.Type().Underlying().(*types.Slice); !isSlice {
 				return
 			}
-			lb, input, what := c14lenLB(x.X, factsAt(x.Block()), 0, map[ssa.Value]bool{})
+			lb, input, what := c14lenLB(x.X, c14atBlock(x.Block()), 0, map[ssa.Value]bool{})
 			if !input {
 				return
 			}
@@ -529,7 +602,7 @@ func c14b1check(c *Ctx, fns []*ssa.Function) {
 			if need == 0 {
 				return
 			}
-			lb := c14strLenLB(x.X, factsAt(x.Block()), 0)
+			lb := c14strLenLB(x.X, c14atBlock(x.Block()), 0)
 			if c14debug {
 				fmt.Fprintf(os.Stderr, "B1 slice %s need=%d lb=%d %s\n", fnKey(f), need, lb, c.pos(x.Pos()))
 			}
@@ -645,13 +718,15 @@ const c14addWord = "route add"
 // and the update loop call (route.NewTable); table STATE is any value of that type plus the maps the builder makes and
 // fills itself (a `seen` set of prefixes is company-dependent state just as the table is).
 type c14a1 struct {
-	c       *Ctx
-	tableT  types.Type
-	state   map[ssa.Value]bool
-	leaves  []*c14a1leaf
-	addFns  map[*ssa.Function]bool
-	applied int // calls of the builder recognised as the application of a route add
-	visited map[string]bool
+	c        *Ctx
+	tableT   types.Type
+	state    map[ssa.Value]bool
+	leaves   []*c14a1leaf
+	addFns   map[*ssa.Function]bool
+	applied  int // calls of the builder recognised as the application of a route add
+	visited  map[string]bool
+	env      map[ssa.Value]c14a1val // the parameters of the helper being evaluated for the empty table (evalCall)
+	builders map[*ssa.Function]bool // the builder and the same-package functions it delegates the building to
 }
 
 // c14a1leaf: one way a non-nil error can leave the builder while a route add is applied.
@@ -691,9 +766,56 @@ func (a *c14a1) readsTable(v ssa.Value) bool {
 	return derives(v, a.isState)
 }
 
+// readsEnv: the value is computed from a parameter bound for the evaluation of a helper (evalCall).
+func (a *c14a1) readsEnv(v ssa.Value) bool {
+	if len(a.env) == 0 {
+		return false
+	}
+	if _, isK := v.(*ssa.Const); isK {
+		return false
+	}
+	return c14localDerives(v, func(x ssa.Value) bool { _, ok := a.env[x]; return ok })
+}
+
+// c14localDerives: v is computed from a value satisfying pred inside its function (operands, merges, loads of local
+// cells); calls are looked through by their arguments.
+func c14localDerives(v ssa.Value, pred func(ssa.Value) bool) bool {
+	seen := map[ssa.Value]bool{}
+	var walk func(x ssa.Value, d int) bool
+	walk = func(x ssa.Value, d int) bool {
+		if x == nil || seen[x] || d > 24 {
+			return false
+		}
+		seen[x] = true
+		if pred(x) {
+			return true
+		}
+		in, ok := x.(ssa.Instruction)
+		if !ok {
+			return false
+		}
+		for _, op := range in.Operands(nil) {
+			if op != nil && *op != nil && walk(*op, d+1) {
+				return true
+			}
+		}
+		if u, isLoad := x.(*ssa.UnOp); isLoad && u.Op == token.MUL {
+			if cell, isCell := u.X.(*ssa.Alloc); isCell && cell.Referrers() != nil {
+				for _, r := range *cell.Referrers() {
+					if st, isStore := r.(*ssa.Store); isStore && st.Addr == cell && walk(st.Val, d+1) {
+						return true
+					}
+				}
+			}
+		}
+		return false
+	}
+	return walk(v, 0)
+}
+
 // abstract values of the evaluation "the table is empty"
 type c14a1val struct {
-	kind int // 0 unknown, 1 nil / zero value of a reference type, 2 integer, 3 boolean
+	kind int // 0 unknown, 1 nil / zero value of a reference type, 2 integer, 3 boolean, 4 string of length n (only "" and constants)
 	n    int64
 	b    bool
 }
@@ -708,6 +830,8 @@ func c14a1zero(t types.Type) c14a1val {
 			return c14a1val{kind: 3, b: false}
 		case u.Info()&types.IsInteger != 0:
 			return c14a1val{kind: 2, n: 0}
+		case u.Info()&types.IsString != 0:
+			return c14a1val{kind: 4, n: 0}
 		}
 	}
 	return c14a1val{}
@@ -720,6 +844,9 @@ func (a *c14a1) evalEmpty(v ssa.Value, d int) c14a1val {
 	if v == nil || d > 10 {
 		return c14a1val{}
 	}
+	if r, ok := a.env[v]; ok {
+		return r
+	}
 	switch x := v.(type) {
 	case *ssa.Const:
 		if x.Value == nil {
@@ -730,6 +857,9 @@ func (a *c14a1) evalEmpty(v ssa.Value, d int) c14a1val {
 		}
 		if n, ok := constInt(x); ok {
 			return c14a1val{kind: 2, n: n}
+		}
+		if k, ok := constString(x); ok {
+			return c14a1val{kind: 4, n: int64(len(k))}
 		}
 	case *ssa.Lookup:
 		if a.isState(x.X) || a.evalEmpty(x.X, d+1).kind == 1 {
@@ -752,6 +882,9 @@ func (a *c14a1) evalEmpty(v ssa.Value, d int) c14a1val {
 				return c14a1val{kind: 3, b: false}
 			}
 		case *ssa.Call:
+			if r, ok := a.evalLib(t, x.Index, d); ok {
+				return r
+			}
 			return a.evalCall(t, x.Index, d)
 		}
 	case *ssa.Call:
@@ -760,6 +893,9 @@ func (a *c14a1) evalEmpty(v ssa.Value, d int) c14a1val {
 				return c14a1val{kind: 2, n: 0}
 			}
 			return c14a1val{}
+		}
+		if r, ok := a.evalLib(x, -1, d); ok {
+			return r
 		}
 		return a.evalCall(x, -1, d)
 	case *ssa.UnOp:
@@ -775,6 +911,9 @@ func (a *c14a1) evalEmpty(v ssa.Value, d int) c14a1val {
 		switch {
 		case l.kind == 1 && r.kind == 1 && (x.Op == token.EQL || x.Op == token.NEQ):
 			return c14a1val{kind: 3, b: x.Op == token.EQL}
+		case l.kind == 4 && r.kind == 4 && (x.Op == token.EQL || x.Op == token.NEQ) && (l.n == 0 || r.n == 0):
+			// "" against "" or against a constant that is not empty
+			return c14a1val{kind: 3, b: (l.n == r.n) == (x.Op == token.EQL)}
 		case l.kind == 3 && r.kind == 3 && (x.Op == token.EQL || x.Op == token.NEQ):
 			return c14a1val{kind: 3, b: (l.b == r.b) == (x.Op == token.EQL)}
 		case l.kind == 0 && r.kind == 2 && (x.Op == token.LSS || x.Op == token.GEQ):
@@ -863,12 +1002,67 @@ func c14counterLB(v ssa.Value, d int) (int64, bool) {
 	return 0, false
 }
 
+// evalLib: the standard library's searches on a list that is empty while the table is: not found.
+func (a *c14a1) evalLib(call *ssa.Call, idx int, d int) (c14a1val, bool) {
+	if len(call.Call.Args) == 0 || call.Call.IsInvoke() {
+		return c14a1val{}, false
+	}
+	empty := func(v ssa.Value) bool { return a.isState(v) || a.evalEmpty(v, d+1).kind == 1 }
+	switch stripTypeArgs(calleeName(&call.Call)) {
+	case "slices.Index", "slices.IndexFunc":
+		if empty(call.Call.Args[0]) {
+			return c14a1val{kind: 2, n: -1}, true
+		}
+	case "slices.Contains", "slices.ContainsFunc":
+		if empty(call.Call.Args[0]) {
+			return c14a1val{kind: 3, b: false}, true
+		}
+	case "slices.BinarySearch", "slices.BinarySearchFunc":
+		if empty(call.Call.Args[0]) {
+			if idx == 1 {
+				return c14a1val{kind: 3, b: false}, true
+			}
+			return c14a1val{kind: 2, n: 0}, true
+		}
+	case "sort.SearchStrings", "sort.SearchInts":
+		if empty(call.Call.Args[0]) {
+			return c14a1val{kind: 2, n: 0}, true
+		}
+	case "sort.Search":
+		// the smallest index in [0, n) for which the predicate holds, n if there is none
+		if n := a.evalEmpty(call.Call.Args[0], d+1); n.kind == 2 && n.n == 0 {
+			return n, true
+		}
+	case "sort.Find":
+		if n := a.evalEmpty(call.Call.Args[0], d+1); n.kind == 2 && n.n == 0 {
+			if idx == 1 {
+				return c14a1val{kind: 3, b: false}, true
+			}
+			return n, true
+		}
+	}
+	return c14a1val{}, false
+}
+
 // evalCall: the result (index idx, -1: the only one) of a small repository helper for the empty table.
 func (a *c14a1) evalCall(call *ssa.Call, idx int, d int) c14a1val {
 	sc := call.Call.StaticCallee()
-	if sc == nil || !isRepoFn(sc) || len(sc.Blocks) == 0 || len(sc.Blocks) > 12 || d > 6 {
+	if sc == nil || !isRepoFn(sc) || len(sc.Blocks) == 0 || len(sc.Blocks) > 30 || d > 6 {
 		return c14a1val{}
 	}
+	// what the helper is handed: a parameter that is nil / 0 / false for the empty table (`routes := t[host]` passed to
+	// `routes.find(path)`) is so inside the helper
+	saved := a.env
+	env := map[ssa.Value]c14a1val{}
+	if len(call.Call.Args) == len(sc.Params) {
+		for k, p := range sc.Params {
+			if r := a.evalEmpty(call.Call.Args[k], d+1); r.kind != 0 {
+				env[p] = r
+			}
+		}
+	}
+	a.env = env
+	defer func() { a.env = saved }()
 	var res c14a1val
 	first, bad := true, false
 	eachInstr(sc, func(i ssa.Instruction) {
@@ -918,7 +1112,7 @@ func (a *c14a1) statusOf(facts []Fact, d int) int {
 func (a *c14a1) statusWhy(facts []Fact, d int) (int, string) {
 	st, why := c14a1free, ""
 	for _, f := range facts {
-		if c14a1isErrTest(f.Cond) || !a.readsTable(f.Cond) {
+		if c14a1isErrTest(f.Cond) || !(a.readsTable(f.Cond) || a.readsEnv(f.Cond)) {
 			continue
 		}
 		r := a.evalEmpty(f.Cond, d)
@@ -957,16 +1151,8 @@ func c14a1isMaker(name string) bool {
 // or through a table of appliers whose entry for "route add" it may call. fns: the repository functions it reaches.
 func (a *c14a1) isAddSite(call *ssa.Call, facts []Fact) ([]*ssa.Function, bool) {
 	fns := c14callees(&call.Call)
-	for _, f := range facts {
-		x, op, y, ok := c14cmp(f)
-		if !ok || op != token.EQL {
-			continue
-		}
-		for _, v := range []ssa.Value{x, y} {
-			if k, isK := constString(v); isK && k == c14addWord {
-				return fns, true
-			}
-		}
+	if c14a1factsSayAdd(facts, 0) {
+		return fns, true
 	}
 	if call.Call.StaticCallee() != nil {
 		return nil, false
@@ -980,6 +1166,125 @@ func (a *c14a1) isAddSite(call *ssa.Call, facts []Fact) ([]*ssa.Function, bool) 
 		}
 	}
 	return out, len(out) > 0
+}
+
+// c14a1factsSayAdd: the conditions select the `route add` command: the command word is compared equal with "route add"
+// (directly, or by a small predicate of the repository - `d.isAdd()` - that says yes only under that comparison), or -
+// the last arm of an if / else chain - it is known to differ from other words of the command-word type, is not compared
+// equal with any of them and is not known to differ from "route add".
+func c14a1factsSayAdd(facts []Fact, depth int) bool {
+	others, excluded := 0, false
+	for _, f := range facts {
+		if call, isCall := f.Cond.(*ssa.Call); isCall && depth < 2 {
+			if sc := call.Call.StaticCallee(); sc != nil && isRepoFn(sc) && len(sc.Blocks) > 0 && len(sc.Blocks) <= 8 && c14a1predSaysAdd(sc, f.Truth, depth) {
+				return true
+			}
+			continue
+		}
+		x, op, y, ok := c14cmp(f)
+		if !ok || (op != token.EQL && op != token.NEQ) {
+			continue
+		}
+		k, isK := constString(y)
+		kv := y
+		if !isK {
+			k, isK = constString(x)
+			kv = x
+		}
+		if !isK {
+			continue
+		}
+		switch {
+		case k == c14addWord && op == token.EQL:
+			return true
+		case k == c14addWord:
+			excluded = true
+		case c14isWordType(kv.Type()):
+			if op == token.EQL {
+				excluded = true
+			} else {
+				others++
+			}
+		}
+	}
+	return others > 0 && !excluded
+}
+
+// c14isWordType: a named string type of the repository (route.Cmd), the type command words are written in.
+func c14isWordType(t types.Type) bool {
+	n, ok := types.Unalias(t).(*types.Named)
+	if !ok || n.Obj().Pkg() == nil || !strings.HasPrefix(n.Obj().Pkg().Path(), repoMod) {
+		return false
+	}
+	b, ok := n.Underlying().(*types.Basic)
+	return ok && b.Info()&types.IsString != 0
+}
+
+// c14a1predSaysAdd: every return of the predicate that can yield truth does so under a comparison with "route add".
+func c14a1predSaysAdd(sc *ssa.Function, truth bool, depth int) bool {
+	if sc.Signature.Results().Len() != 1 {
+		return false
+	}
+	n, all := 0, true
+	eachInstr(sc, func(i ssa.Instruction) {
+		r, ok := i.(*ssa.Return)
+		if !ok || len(r.Results) != 1 {
+			return
+		}
+		facts := localFactsAt(r.Block())
+		if b, isK := constBool(r.Results[0]); isK {
+			if b != truth {
+				return
+			}
+		} else {
+			facts = appendCondFacts(facts, r.Results[0], truth, 0)
+		}
+		n++
+		if !c14a1factsSayAdd(facts, depth+1) {
+			all = false
+		}
+	})
+	return n > 0 && all
+}
+
+// c14wrappedErrors: the error values a call that makes an error wraps (fmt.Errorf("...%w", err), errors.Join(a, b)):
+// arguments of type error, and errors boxed into the variadic argument list.
+func c14wrappedErrors(call *ssa.Call) []ssa.Value {
+	var out []ssa.Value
+	unbox := func(v ssa.Value) {
+		switch x := v.(type) {
+		case *ssa.MakeInterface:
+			v = x.X
+		case *ssa.ChangeInterface:
+			v = x.X
+		}
+		if c14isErrorType(v.Type()) && !isNilConst(v) {
+			out = append(out, v)
+		}
+	}
+	for _, arg := range call.Call.Args {
+		unbox(arg)
+		sl, ok := arg.(*ssa.Slice)
+		if !ok {
+			continue
+		}
+		arr, ok := sl.X.(*ssa.Alloc)
+		if !ok || arr.Referrers() == nil {
+			continue
+		}
+		for _, r := range *arr.Referrers() {
+			ia, ok := r.(*ssa.IndexAddr)
+			if !ok || ia.Referrers() == nil {
+				continue
+			}
+			for _, u := range *ia.Referrers() {
+				if st, isStore := u.(*ssa.Store); isStore && st.Addr == ia {
+					unbox(st.Val)
+				}
+			}
+		}
+	}
+	return out
 }
 
 // expand follows an error value back to the places that make it non-nil.
@@ -1015,11 +1320,25 @@ func (a *c14a1) expand(v ssa.Value, fn *ssa.Function, facts []Fact, pos token.Po
 	case *ssa.UnOp:
 		if x.Op == token.MUL {
 			if cell, ok := x.X.(*ssa.Alloc); ok && cell.Referrers() != nil {
+				key := fmt.Sprintf("cell %p %v", cell, top)
+				if a.visited[key] {
+					return
+				}
+				a.visited[key] = true
 				n := 0
-				for _, r := range *cell.Referrers() {
-					if st, ok := r.(*ssa.Store); ok && st.Addr == cell {
-						n++
+				for _, st := range c14cellStores(cell) {
+					n++
+					p := pos
+					if st.Pos().IsValid() {
+						p = st.Pos()
+					}
+					sf := st.Parent()
+					if sf == fn {
 						a.expand(st.Val, fn, append(append([]Fact{}, facts...), factsAt(st.Block())...), pos, depth+1, top)
+					} else {
+						// assigned in a closure that captures the variable (the body of a range-over-func loop, a
+						// callback): the conditions that hold there
+						a.expand(st.Val, sf, append(append([]Fact{}, facts...), factsAt(st.Block())...), p, depth+1, top)
 					}
 				}
 				if n > 0 {
@@ -1053,7 +1372,32 @@ func (a *c14a1) expandCall(call *ssa.Call, idx int, fn *ssa.Function, facts []Fa
 	name := calleeName(&call.Call)
 	if c14a1isMaker(name) {
 		a.leaves = append(a.leaves, &c14a1leaf{pos: pos, fn: fn, facts: facts, what: "an error made with " + name})
+		// an error that wraps another one (`fmt.Errorf("route: %q: %w", d.Cmd, err)`) fails where the wrapped one does
+		for _, w := range c14wrappedErrors(call) {
+			a.expand(w, fn, facts, pos, depth+1, top)
+		}
 		return
+	}
+	if !reads && top {
+		// the builder delegates the building: `return newTable(slices.Values(defs))` - the callee makes the table
+		if sc := call.Call.StaticCallee(); sc != nil && a.builders[sc] {
+			key := fmt.Sprintf("builder %p", sc)
+			if !a.visited[key] {
+				a.visited[key] = true
+				eachInstr(sc, func(i ssa.Instruction) {
+					r, ok := i.(*ssa.Return)
+					if !ok {
+						return
+					}
+					for k, res := range r.Results {
+						if (idx < 0 || k == idx) && c14isErrorType(res.Type()) {
+							a.expand(res, sc, append(append([]Fact{}, facts...), factsAt(r.Block())...), r.Pos(), depth+1, true)
+						}
+					}
+				})
+			}
+			return
+		}
 	}
 	if !reads {
 		// a verdict on the command alone
@@ -1191,6 +1535,9 @@ func c14a1sameJudgement(x, y *ssa.Call) bool {
 		if ap := accessPath(p); ap != "" && ap == accessPath(q) && c14pathStable(p) && c14pathStable(q) && p.Parent() == q.Parent() {
 			continue
 		}
+		if c14sameCellLoad(p, q) {
+			continue
+		}
 		return false
 	}
 	return true
@@ -1203,26 +1550,72 @@ func runC14A1(c *Ctx) {
 		c.undecided("C14.A1", "anchor|table builder", "route.NewTable (the builder the validator and the update loop call) does not resolve to a function with a table and an error result")
 		return
 	}
-	a := &c14a1{c: c, tableT: builder.Signature.Results().At(0).Type(), state: map[ssa.Value]bool{}, addFns: map[*ssa.Function]bool{}, visited: map[string]bool{}}
+	a := &c14a1{c: c, tableT: builder.Signature.Results().At(0).Type(), state: map[ssa.Value]bool{}, addFns: map[*ssa.Function]bool{}, visited: map[string]bool{}, builders: map[*ssa.Function]bool{}}
 	if _, isMap := a.tableT.Underlying().(*types.Map); !isMap {
 		if p, ok := a.tableT.Underlying().(*types.Pointer); ok {
 			a.tableT = p.Elem()
 		}
 	}
-	// company-dependent state the builder keeps besides the table: the maps it makes and fills
-	for _, f := range c14regionNoGo(builder, 1) {
-		if rootPkg(f) != rootPkg(builder) {
-			continue
+	// the builder may delegate the building to same-package functions that return the table (`newTable(seq)` behind
+	// NewTable and NewTableCustom): found by role - a static callee with a result of the table type and an error
+	a.builders[builder] = true
+	for round := 0; round < 2; round++ {
+		for f := range a.builders {
+			eachInstr(f, func(i ssa.Instruction) {
+				cc := callCommon(i)
+				if cc == nil {
+					return
+				}
+				sc := cc.StaticCallee()
+				if sc == nil || a.builders[sc] || len(sc.Blocks) == 0 || !isRepoFn(sc) || rootPkg(sc) != rootPkg(builder) {
+					return
+				}
+				hasT, hasE := false, false
+				for k := 0; k < sc.Signature.Results().Len(); k++ {
+					t := sc.Signature.Results().At(k).Type()
+					if p, isP := t.Underlying().(*types.Pointer); isP {
+						t = p.Elem()
+					}
+					hasT = hasT || types.Identical(t, a.tableT)
+					hasE = hasE || c14isErrorType(sc.Signature.Results().At(k).Type())
+				}
+				// the table must be MADE there, not handed in
+				for _, p := range sc.Params {
+					if a.isState(p) {
+						hasT = false
+					}
+				}
+				if hasT && hasE {
+					a.builders[sc] = true
+				}
+			})
 		}
+	}
+	// company-dependent state the builder keeps besides the table: the maps it makes and fills (also from the body of
+	// a range-over-func loop, which is a closure of the builder)
+	for f := range a.builders {
 		eachInstr(f, func(i ssa.Instruction) {
 			mm, ok := i.(*ssa.MakeMap)
-			if !ok || mm.Referrers() == nil || f != builder {
+			if !ok || mm.Referrers() == nil {
 				return
 			}
+			if a.isState(mm) {
+				return
+			}
+			filled := false
 			for _, r := range *mm.Referrers() {
 				if mu, ok := r.(*ssa.MapUpdate); ok && mu.Map == mm {
-					a.state[mm] = true
+					filled = true
 				}
+				// kept in a variable that a closure of the builder captures: filled there
+				if st, ok := r.(*ssa.Store); ok && st.Val == mm {
+					if cell, isCell := st.Addr.(*ssa.Alloc); isCell && c14cellMapUpdated(cell) {
+						filled = true
+					}
+				}
+			}
+			if filled {
+				a.state[mm] = true
 			}
 		})
 	}
